@@ -73,6 +73,102 @@ CHECKS['C08'] = dict(
         'correspondence runs (C01, C03..C16), not by this check; -M below |d|+8 underflows in the C and is outside the property; Coq kernel; translator; extraction; gcc.',
    technique='Coq proof (dotify loop invariant, putname/readname round trip, composition with codec and matcher theorems), differential correspondence',
    design='4/C08')
+CHECKS['C01'] = dict(
+   text='PARTIAL. Coq theorems about both fragment protocols as abstract transition systems with ghost packet numbers and an adversarial '
+        'network (every chunk, header and ack ever sent may be lost, duplicated, re-ordered): under the network hypothesis N* (delay <= 3 '
+        'packets, query freshness <= 2 packets, receiver <= 5 packets behind, <= 16 fragments) every buffer handed to uncompress() on either '
+        'side is the complete in-order fragment sequence of ONE packet (inductive invariant, unbounded executions); fragments tile the '
+        'packet bytes; raw-mode frame decodes to its payload; non-vacuity scripts; and a proved WITNESS that outside N* the reassembly logic '
+        'alone mis-assembles (integrity then rests on zlib Adler-32, which is not modelled) -- so the "for all network behaviours" part of the '
+        'statement is not proved. Tie: abstract rules proved equal to the decision expressions of Server.v/Client.v; the composed model '
+        '(Tunnel.v = Client.v + Server.v + network) is run against the two real programs on random fault schedules over all configurations, '
+        'and an implementation-level oracle (real zlib) checks every tun write against the packets offered at the peer.',
+   note='Trusts: the abstraction from Server.v/Client.v to ProtoUp.v/ProtoDown.v (by inspection plus the rule-tie lemmas; the big dispatcher '
+        'functions are not proved to refine the abstract steps); zlib as an oracle (unz (zc p) = Some p); one client session; Coq kernel; translator; extraction; gcc.',
+   technique='Coq proof (inductive invariant over an adversarial-network transition system, both directions) + refutation witness outside the hypothesis; whole-system differential correspondence and integrity oracle',
+   design='4/C01')
+CHECKS['C10'] = dict(
+   text='Coq theorems for every legal label list, id, type and payload up to 4098 bytes: the query datagram (with or without EDNS0) and the '
+        'answer datagram write_dns builds for NULL/PRIVATE/TXT/CNAME/A/MX/SRV, and the NS / A auxiliary answers, are accepted by an independent strict '
+        'RFC 1035 parser written in Gallina (exact section counts, backward compression pointers to label starts only, labels <= 63, names <= 255, '
+        'exact RDLENGTH and per-type RDATA shape, TXT strings tile RDATA) with the expected id, question, owner names and record types. The '
+        'encoder model is tied to dns.c/iodined.c by byte-equality correspondence on the datagrams the real code emits; the strict parser is tied '
+        'to an independent Python parser on malformed/well-formed corpora and mutants of real datagrams.',
+   note='Trusts: the strict parser as the reading of RFC 1035 (two independent implementations agree); the root question name and tunnel domains '
+        'over 252 wire bytes are outside the theorems (proved not well-formed, unreachable in the server); byte-ness of non-TXT RDATA rests on the '
+        'correspondence; Coq kernel; translator; extraction; gcc.',
+   technique='Coq proof (encoder output accepted by a strict Gallina RFC 1035 parser, for all names/payloads), differential correspondence, second independent parser',
+   design='4/C10')
+CHECKS['C02'] = dict(
+   text='PARTIAL. Coq theorems: (A) for both fragment/ack state machines (abstract transition systems of C01), on a clean path every round '
+        'makes progress; any sequence of packets of <= 16 fragments accepted while the receiver is at most 3 packets behind is handed to '
+        'uncompress() exactly once each, complete, in the order accepted, after exactly n rounds per packet, ending synchronised; from any '
+        'state reachable under N* with a packet in flight and the receiver at most 4 behind the packet is completed within n-j rounds '
+        '(upstream). (B) for every state of the client model, four consecutive select timeouts end the sending state and the select timeout is '
+        'positive and bounded. NOT proved: bounded TIME for the composition of both select loops with the network, the server sweep / lazy hold, '
+        'downstream recovery from arbitrary states, resynchronisation when 5..8 packets behind. Those are decided by correspondence of '
+        'Client.v/Server.v/Tunnel.v with the real programs on random fault schedules in virtual time plus an implementation-level oracle: '
+        'clean-path exactly-once-in-order, and after a fault prefix delivery resumes (at most 4 leading packets lost) within the schedule.',
+   note='Trusts: abstraction of the concrete models to the abstract protocols (inspection + rule-tie lemmas of C01); virtual time (wrapped '
+        'time/select) stands for real time; one client session; zlib as oracle; Coq kernel; translator; extraction; gcc.',
+   technique='Coq proof (progress/exactly-once by induction over clean rounds; timer state machine lemmas) + whole-system differential correspondence and timed oracle on the real programs',
+   design='4/C02')
+CHECKS['C14'] = dict(
+   text='Coq theorems over arbitrary event histories of the server model (Server.v: DNS queries, raw frames, tun packets, sweeps, ticks; any '
+        'oracle for login/zlib): multiset ledger invariant -- for every query instance (address incl. port, id, name, type), answers sent + '
+        'copies still held <= copies received; events that carry no query only answer held queries; at most two queries (plus one remembered '
+        'duplicate each) held per session; lazy mode answers the older held query first, immediate mode answers at once or parks for the sweep; '
+        'id 0 ping/data queries are ignored and never held. Tied to iodined.c by per-event correspondence on server histories and an '
+        'implementation-level multiset oracle that parses every emitted datagram and matches it against unanswered received queries.',
+   note='Trusts: the oracle matches on (address, id, dotted question name, type); a label containing a dot byte is compared as dotted text; '
+        'Coq kernel; translator; extraction; gcc.',
+   technique='Coq proof (ledger invariant by Permutation/multiset counting over every handler, induction over histories), differential correspondence, implementation-level multiset oracle',
+   design='4/C14')
+CHECKS['C09'] = dict(
+   text='Coq theorems for all seven record types, every downstream codec letter, every well-formed question name and every payload of >= 2 bytes: '
+        'what the client extracts from the answer write_dns builds is always a prefix of the payload with the question id/type/first name byte '
+        'echoed (C09_prefix); it is the whole payload exactly when the length is within a proved capacity table (NULL/PRIVATE 4096; TXT '
+        '2559/3071/3071/3583/4095; CNAME/A 153/183/183/214/153; MX/SRV >= 4096), tight for the single-record types; exactness is monotone '
+        '(a shorter payload is delivered whenever a longer one is); the server always sends; the datagram size is a closed form and monotone in the '
+        'payload (used by C11/C15). Tied to write_dns/dns_encode/read_dns_withq/dns_namedec by a two-phase run: every length on the real code with '
+        'an oracle, then the model on the boundary subset.',
+   note='Trusts: MX/SRV with a 4096-byte client buffer and payloads 2296..4096 (truncating case) is covered by the run, not by a theorem; payloads above 4096 '
+        'outside the quantifier; Coq kernel; translator; extraction; gcc.',
+   technique='Coq proof (encode/decode round trip per record type, tiling of TXT strings and host-name labels, capacity arithmetic), differential correspondence + implementation oracle',
+   design='4/C09')
+CHECKS['C12'] = dict(
+   text='Coq theorems for every datagram dat and ANY two residues res1, res2 behind it in the receive buffer: readname, readtxtbin, readshort/readlong, '
+        'dns_decode of queries and of answers (every type branch), client_extract, dns_get_id, the raw-frame views and the whole server step and client '
+        'tunnel step give identical results on dat++res1 and dat++res2, equal to the step on dat alone; every byte of a decoded query name is a byte of the '
+        'datagram or a dot; the echoed question of every answer is residue-independent. Tied to the C by runs that decode each datagram over several different '
+        'residues (including the real tail of a longer predecessor) and by server/client histories with short-after-long datagrams; ASan at the thorough tier.',
+   note='Trusts: the buffer abstraction (a C read at index i is rb buf i; reads past the buffer end are observed by ASan only); the client step theorem '
+        'rests on a copy of the body of Client.tunnel_dns tied by a reflexivity lemma; Coq kernel; translator; extraction; gcc.',
+   technique='Coq proof (congruence of every decoder under agreement on the datagram prefix, lifted to the server and client steps), differential correspondence over varied residues',
+   design='4/C12')
+CHECKS['C06'] = dict(
+   text='Coq theorems for all inputs about the client-side decoders and the client tunnel model: every write stays within its destination (decoded answers, '
+        'readname, readtxtbin, the 250x256 MX name array and its output loop, dns_namedec including its trailing NUL), fuel adequacy / termination of every '
+        'loop with explicit work bounds, the reassembly buffer and counters stay in range over arbitrary event histories (given zlib output fits its buffer), and '
+        'a reply that matches none of the recent queries leaves the tunnel state unchanged and writes nothing to tun. Tied to the C by decoder, tunnel-history '
+        'and scripted-handshake runs, all under ASan/UBSan; the handshake functions have no model and are covered by the sanitizer runs only.',
+   note='Trusts: ASan/UBSan as the memory-safety observer for code without a model (handshake functions, tun_setip, libc, zlib); per-datagram work bound is '
+        'prose over formal pieces; Coq kernel; translator; extraction; gcc/clang runtime.',
+   technique='Coq proof (bounds invariants of the decoder models, fuel adequacy, state invariant by induction over events), differential correspondence, sanitizer runs',
+   design='4/C05-C06')
+CHECKS['C11'] = dict(
+   text='Coq theorems over the relay family (case keep/lower/upper/random x 8-bit clean/strip/reject x punctuation keep/mangle +/mangle _, on either side, size '
+        'limits, EDNS0, record-type sets): the test patterns cover every alphabet character a deterministic relay can alter (by reflection over the 27 members), '
+        'so the upstream codec selected survives the query side for every payload (via the C07 round trip); the downstream codec selected delivers every payload '
+        'except Raw over TXT with "+" mangling (refuted with witness = known finding); Base32 survives all 36 members; the fragment-size binary search returns a size '
+        'whose answers pass the limit (given C09 size monotonicity); every autodetect falls back to Base32/least type rather than failing. Decision logic, pattern '
+        'strings, orders and probe constants are re-read from the source; the model predicts (rv, type, codecs, EDNS0, fragsize) of the REAL client_handshake run '
+        'through a relay harness, and an oracle sends packets over the negotiated settings.',
+   note='Trusts: the relay semantics of harness/h_handshake.c as the reading of the family; retry/time-out sequencing, lazy and raw sub-handshakes validated by '
+        'runs only; random-case downstream half assumes the alteration was visible in the replies; three known findings (all forced options or the protocol constant); '
+        'Coq kernel; translator; extraction; gcc.',
+   technique='Coq proof (reflection over the finite relay family for coverage, lifted to all payloads by the codec round trip; binary-search invariant), differential correspondence against the real handshake through a relay, delivery oracle',
+   design='4/C11')
 NOT_YET = {}
 
 def main():
